@@ -8,7 +8,6 @@ import (
 	"cosmossdk.io/collections"
 	sdkmath "cosmossdk.io/math"
 	slashingtypes "cosmossdk.io/x/slashing/types"
-	stakingtypes "cosmossdk.io/x/staking/types"
 	abci "github.com/cometbft/cometbft/abci/types"
 	cmttypes "github.com/cometbft/cometbft/api/cometbft/types/v1"
 	sdk "github.com/cosmos/cosmos-sdk/types"
@@ -136,5 +135,3 @@ func (w *world) entries(ctx sdk.Context, v int) int {
 	}
 	return len(ubd.Entries)
 }
-
-var _ = stakingtypes.ModuleName
